@@ -82,6 +82,52 @@ Theorem c11_inflight_complete : forall rs pt max r e,
 Proof. exact inflight_complete. Qed.
 Print Assumptions c11_inflight_complete.
 
+(* Per protocol.  An exchange with client-side times first byte <= HEADERS/part 1 sent <= request sent <= reply complete is
+   waited for from the moment it is a stream: request sent for bolt and HTTP/1.1, HEADERS sent for HTTP/2. *)
+Theorem c11_inflight_complete_per_protocol : forall xs pt max x e,
+  increasing pt -> In x xs -> x_wf x ->
+  stream_at x <= pt 0 -> pt 0 < x_done x ->
+  x_done x - pt 0 <= max ->
+  drain_exit (map req_of xs) pt max = Some e ->
+  x_done x <= pt e.
+Proof. exact inflight_complete_proto. Qed.
+Print Assumptions c11_inflight_complete_per_protocol.
+
+(* HTTP/2: "headers sent" and "body half sent" are already covered (stream_at = HEADERS sent) *)
+Theorem c11_http2_headers_sent_suffices : forall xs pt max x e,
+  x_proto x = PHttp2 ->
+  increasing pt -> In x xs -> x_wf x ->
+  x_hdr x <= pt 0 -> pt 0 < x_done x -> x_done x - pt 0 <= max ->
+  drain_exit (map req_of xs) pt max = Some e -> x_done x <= pt e.
+Proof.
+  intros xs pt max x e Hp Hi Hin Hw Hh. apply (inflight_complete_proto xs pt max x e Hi Hin Hw).
+  unfold stream_at. rewrite Hp. exact Hh.
+Qed.
+
+(* bolt and HTTP/1.1: the same statement with "first byte sent" in place of "is a stream" is FALSE (the listed finding) *)
+Definition c11_waited_from_first_byte (p : proto) : Prop := forall xs pt max x e,
+  x_proto x = p -> increasing pt -> In x xs -> x_wf x ->
+  x_first x <= pt 0 -> pt 0 < x_done x -> x_done x - pt 0 <= max ->
+  drain_exit (map req_of xs) pt max = Some e -> x_done x <= pt e.
+Lemma c11_first_byte_witness p : p <> PHttp2 -> ~ c11_waited_from_first_byte p.
+Proof.
+  intros Hp H.
+  specialize (H [mkX p 0 10 60 200] (fun i => 30 + 10 * i) 1000 (mkX p 0 10 60 200) 0 eq_refl).
+  assert (Hinc : increasing (fun i => 30 + 10 * i)) by (intros i; lia).
+  specialize (H Hinc (or_introl eq_refl)).
+  assert (Hw : x_wf (mkX p 0 10 60 200)) by (unfold x_wf; cbn; lia).
+  specialize (H Hw).
+  assert (H1 : x_first (mkX p 0 10 60 200) <= 30 + 10 * 0) by (cbn; lia).
+  assert (H2 : 30 + 10 * 0 < x_done (mkX p 0 10 60 200)) by (cbn; lia).
+  assert (H3 : x_done (mkX p 0 10 60 200) - (30 + 10 * 0) <= 1000) by (cbn; lia).
+  specialize (H H1 H2 H3).
+  destruct p; [| |congruence]; specialize (H eq_refl); vm_compute in H; lia.
+Qed.
+Theorem c11_bolt_receiving_refuted : ~ c11_waited_from_first_byte PBolt.
+Proof. apply c11_first_byte_witness. discriminate. Qed.
+Theorem c11_http1_receiving_refuted : ~ c11_waited_from_first_byte PHttp1.
+Proof. apply c11_first_byte_witness. discriminate. Qed.
+
 Theorem c11_drain_no_overstay : forall rs pt max e,
   drain_exit rs pt max = Some e -> forall j, j < e -> pt j - pt 0 <= max /\ 0 < gauge rs (pt j).
 Proof. exact drain_no_overstay. Qed.
